@@ -20,7 +20,10 @@ const PackageSymbol = Symbol("package")
 // cl:require function.
 var CurrentPackageLoadPath = ""
 
-var packages []*Package
+var (
+	packages   []*Package
+	packagesMu sync.Mutex
+)
 
 // Package represents a LISP package.
 type Package struct {
@@ -61,7 +64,9 @@ func DefPackage(name string, nicknames []string, doc string) *Package {
 		classes:   map[string]Class{},
 		PreSet:    DefaultPreSet,
 	}
+	packagesMu.Lock()
 	packages = append(packages, &pkg)
+	packagesMu.Unlock()
 	addFeature(pkg.Name)
 
 	return &pkg
@@ -77,19 +82,23 @@ func AddPackage(pkg *Package) {
 	if 0 < len(CurrentPackageLoadPath) {
 		pkg.loadPath = CurrentPackageLoadPath
 	}
+	packagesMu.Lock()
 	packages = append(packages, pkg)
+	packagesMu.Unlock()
 	addFeature(pkg.Name)
 }
 
 // RemovePackage deletes a package.
 func RemovePackage(pkg *Package) {
 	if pkg != nil {
+		packagesMu.Lock()
 		for i, p := range packages {
 			if pkg == p {
 				packages = append(packages[:i], packages[i+1:]...)
 				break
 			}
 		}
+		packagesMu.Unlock()
 		for _, u := range pkg.Uses {
 			pkg.Unuse(u)
 		}
@@ -623,9 +632,11 @@ func (obj *Package) LoadPath() string {
 
 // PackageNames returns a sorted list of package names.
 func PackageNames() (names List) {
+	packagesMu.Lock()
 	for _, pkg := range packages {
 		names = append(names, String(pkg.Name))
 	}
+	packagesMu.Unlock()
 	sort.Slice(names,
 		func(i, j int) bool {
 			si := string(names[i].(String))
@@ -637,13 +648,17 @@ func PackageNames() (names List) {
 
 // AllPackages returns a list of all packages.
 func AllPackages() []*Package {
+	packagesMu.Lock()
 	pkgs := make([]*Package, len(packages))
 	copy(pkgs, packages)
+	packagesMu.Unlock()
 	return pkgs
 }
 
 // FindPackage returns the package matching the provided name.
 func FindPackage(name string) *Package {
+	packagesMu.Lock()
+	defer packagesMu.Unlock()
 	for _, pkg := range packages {
 		if strings.EqualFold(name, pkg.Name) {
 			return pkg
